@@ -12,7 +12,7 @@ TABLES = ("Require Import Run.GenBuses Run.GenOpcodes.\n"
           "Definition T : tables := {| t_low := Run.GenBuses.low_rom_bus; t_high := Run.GenBuses.high_rom_bus; "
           "t_busmap := Run.GenBuses.bus_mapping; t_optable := Run.GenOpcodes.opcode_table; "
           "t_prec := Run.GenOpcodes.operator_precedence |}.")
-HEADER = "From A816 Require Import Oracle.Asmo.\n" + TABLES
+HEADER = "From A816 Require Import Oracle.Asmo Model.Ips.\n" + TABLES
 CASE_TYPE = "asmcase * obs asmobs"
 CHECK = "fun c => (corr T (fst c) (snd c), true)"
 MODEL_VIEW = "fun c => model_obs T (fst c)"
@@ -61,7 +61,9 @@ def files_term(case) -> str:
     files = case.get("files") or {}
     bins = [(k, v) for k, v in files.items() if isinstance(v, (bytes, list)) and not k.endswith(".ips")]
     fb = C.clist(bins, lambda kv: C.cpair(C.cstr(kv[0]), C.cbytes(bytes(kv[1]))))
-    return f"{{| f_bin := {fb}; f_tables := []; f_ips := [] |}}"
+    ips = [(k, v) for k, v in files.items() if isinstance(v, (bytes, list)) and k.endswith(".ips")]
+    fi = C.clist(ips, lambda kv: C.cpair(C.cstr(kv[0]), f"(fun d => A816.Model.Ips.read_ips d {C.cbytes(bytes(kv[1]))})"))
+    return f"{{| f_bin := {fb}; f_tables := []; f_ips := {fi} |}}"
 
 
 def case_term(case, ob) -> str:
